@@ -153,19 +153,26 @@ theorem decode_encode_node (H : Bytes → Bytes) (hH : ∀ x, (H x).length = 32)
   have := decodeNode_body H hH hw hs ((enc (body H n)).length + 1) [] (by omega)
   rwa [List.append_nil] at this
 
-/-- **Completeness.** The node list `Prove` produces for ANY key (present or absent), stored under the hashes of its
-    elements, makes `VerifyProof` return exactly the content's answer — provided the hash function does not collide on
-    those finitely many elements (`cf`, decidable on instances). -/
-theorem prove_verify (H : Bytes → Bytes) (hH : ∀ x, (H x).length = 32) (t : Node) (hw : WF t) (hs : SizeOk H t)
+/-- **Completeness.** The node list `Prove` produces for ANY key (present or absent) in ANY canonical trie (the empty
+    one included), stored under the hashes of its elements, makes `VerifyProof` return exactly the content's answer —
+    provided the hash function does not collide on those finitely many elements (`cf`) nor between the root node and
+    the empty string (`hroot`); both explicit and decidable on instances. -/
+theorem prove_verify (H : Bytes → Bytes) (hH : ∀ x, (H x).length = 32) (t : Node) (hw : WFRoot t) (hs : SizeOk H t)
+    (hroot : t ≠ .nil → hashRoot H t ≠ emptyRoot H)
     (k : List Nib) (hk : Term k) (els : List Bytes) (hp : prove H t k = some els)
     (cf : ∀ e ∈ els, ∀ e' ∈ els, H e = H e' → e = e') :
-    verify (dbOf H els) (verifyFuel k) (hashRoot H t) k =
+    verifyProof H (dbOf H els) (verifyFuel k) (hashRoot H t) k =
       match lookup t k with
       | some v => .value v
       | none => .absent := by
-  have := prove_verify_core H hH hw hs hk hp (dbOf H els) (dbOf_self H els cf) (verifyFuel k) (by simp [verifyFuel])
-  rw [this]
-  cases lookup t k <;> rfl
+  rcases hw with rfl | hw
+  · have : hashRoot H .nil = emptyRoot H := rfl
+    simp [verifyProof, this, lookup]
+  · have hne := hroot (wf_ne_nil hw)
+    simp only [verifyProof, hne, if_false]
+    have := prove_verify_core H hH hw hs hk hp (dbOf H els) (dbOf_self H els cf) (verifyFuel k) (by simp [verifyFuel])
+    rw [this]
+    cases lookup t k <;> rfl
 
 /-- `Prove` itself never panics on a canonical trie and a terminated key. -/
 theorem prove_total (H : Bytes → Bytes) (t : Node) (hw : WFRoot t) (k : List Nib) (hk : Term k) :
@@ -213,17 +220,23 @@ theorem prove_total (H : Bytes → Bytes) (t : Node) (hw : WFRoot t) (k : List N
     extended, forged), stored under the hashes of its elements: whenever `VerifyProof` against the root of `t` returns a
     value it is the value `t` holds, whenever it reports absence the key is absent, and it never panics — under the explicit
     hypothesis `cf` that no element of `p` collides under `H` with a genuine node of `t` without being that node's
-    encoding. With any amount of fuel (loop iterations). -/
-theorem verify_sound (H : Bytes → Bytes) (hH : ∀ x, (H x).length = 32) (t : Node) (hw : WF t) (hs : SizeOk H t)
+    encoding (and `hroot`: the root node does not collide with the empty string). Any amount of fuel (loop iterations). -/
+theorem verify_sound (H : Bytes → Bytes) (hH : ∀ x, (H x).length = 32) (t : Node) (hw : WFRoot t) (hs : SizeOk H t)
+    (hroot : t ≠ .nil → hashRoot H t ≠ emptyRoot H)
     (p : List Bytes) (cf : ∀ e ∈ p, ∀ m, Sub m t → H e = hashOf H m → e = enc (body H m))
     (k : List Nib) (hk : Term k) (f : Nat) :
-    (∀ v, verify (dbOf H p) f (hashRoot H t) k = .value v → lookup t k = some v) ∧
-    (verify (dbOf H p) f (hashRoot H t) k = .absent → lookup t k = none) ∧
-    verify (dbOf H p) f (hashRoot H t) k ≠ .panic := by
-  apply verify_core H hH (dbOf H p) t _ f t k (Sub.refl t) hw hs hk
-  intro m hsub _ blob hd
-  obtain ⟨h1, h2⟩ := dbOf_some hd
-  exact cf blob h1 m hsub h2
+    (∀ v, verifyProof H (dbOf H p) f (hashRoot H t) k = .value v → lookup t k = some v) ∧
+    (verifyProof H (dbOf H p) f (hashRoot H t) k = .absent → lookup t k = none) ∧
+    verifyProof H (dbOf H p) f (hashRoot H t) k ≠ .panic := by
+  rcases hw with rfl | hw
+  · have : hashRoot H .nil = emptyRoot H := rfl
+    simp [verifyProof, this, lookup]
+  · have hne := hroot (wf_ne_nil hw)
+    simp only [verifyProof, hne, if_false]
+    apply verify_core H hH (dbOf H p) t _ f t k (Sub.refl t) hw hs hk
+    intro m hsub _ blob hd
+    obtain ⟨h1, h2⟩ := dbOf_some hd
+    exact cf blob h1 m hsub h2
 
 /-- **Binding** (the converse of `root_content_only`): two canonical tries with the same root hash are the same trie —
     hence hold the same content — provided `H` does not collide between a node of one and a node of the other (`CFp`,
@@ -300,13 +313,17 @@ private def leafT : Node := .short (keybytesToHex [0x61]) (.value [7, 7])
 example : WF leafT := WF.leaf _ _ (term_keybytesToHex _) (by decide)
 example : SizeOk toyH leafT := ⟨by decide, trivial⟩
 example : prove toyH leafT (keybytesToHex [0x61]) = some [[0xc6, 0x82, 0x20, 0x61, 0x82, 7, 7]] := by decide
-example : verify (dbOf toyH [[0xc6, 0x82, 0x20, 0x61, 0x82, 7, 7]]) 5 (hashRoot toyH leafT) (keybytesToHex [0x61]) =
+example : verifyProof toyH (dbOf toyH [[0xc6, 0x82, 0x20, 0x61, 0x82, 7, 7]]) 5 (hashRoot toyH leafT) (keybytesToHex [0x61]) =
     .value [7, 7] := by decide
-example : verify (dbOf toyH [[0xc6, 0x82, 0x20, 0x61, 0x82, 7, 7]]) 5 (hashRoot toyH leafT) (keybytesToHex [0x62]) =
+example : verifyProof toyH (dbOf toyH [[0xc6, 0x82, 0x20, 0x61, 0x82, 7, 7]]) 5 (hashRoot toyH leafT) (keybytesToHex [0x62]) =
     .absent := by decide
 -- an altered element is simply not found under the root hash
-example : verify (dbOf toyH [[0xc6, 0x82, 0x20, 0x61, 0x82, 7, 8]]) 5 (hashRoot toyH leafT) (keybytesToHex [0x61]) =
+example : verifyProof toyH (dbOf toyH [[0xc6, 0x82, 0x20, 0x61, 0x82, 7, 8]]) 5 (hashRoot toyH leafT) (keybytesToHex [0x61]) =
     .err := by decide
+-- the empty trie: the empty proof verifies every key to absence; `hroot` holds for the leaf trie
+example : prove toyH .nil (keybytesToHex [0x61]) = some [] := by decide
+example : verifyProof toyH (dbOf toyH []) 5 (hashRoot toyH .nil) (keybytesToHex [0x61]) = .absent := by decide
+example : hashRoot toyH leafT ≠ emptyRoot toyH := by decide
 -- the collision-freedom hypothesis of `verify_sound` is satisfiable (here: the genuine proof against a one-leaf trie)
 example : ∀ e ∈ [[0xc6, 0x82, 0x20, 0x61, 0x82, (7 : UInt8), 7]], ∀ m, Sub m leafT → toyH e = hashOf toyH m →
     e = enc (body toyH m) := by
